@@ -1193,3 +1193,64 @@ def gen_odd_file(rng, profile):
         st, _ = task_steps(b, c, q, i, pull_pattern(rng))
         b.scripts[c] += st
     return b.merge()
+
+
+WALKERS = ["entry @AT_location \"%s\"", "entry @AT_location", "entry @AT_location elem label", "entry @AT_location address", "entry ?AT_location @AT_location elem offset",
+           "entry @AT_ranges", "entry address", "entry attribute label", "entry attribute value", "entry child offset", "unit entry offset",
+           "unit root name", "entry @AT_type offset", "entry name", "symbol name", "abbrev entry offset", "entry abbrev attribute label",
+           "entry \"%s\"", "unit \"%s\"", "entry @AT_location relem label", "entry [@AT_location] length", "entry @AT_decl_file",
+           "entry @AT_location (|L| L address, L elem label)"]
+
+
+def gen_twin_walks(rng, profile):
+    """Two or three result sets of one walking query (or of two such queries)
+    over the same Dwarf value, alive together and pulled in a seeded
+    alternation to the end: whatever a walk keeps in the handle rather than in
+    its own state (a base address, a cursor, a scratch list) is clobbered by
+    its twin."""
+    b = Builder(rng, profile)
+    plan = b.plan
+    common_knobs(rng, plan)
+    if profile != "C13":
+        plan["knobs"]["leakcheck"] = 0
+    S = b.setup
+    f = rng.choice(["loclists.o", "loclists.o", "k1.o", "k2.o", "k1-g3.o", "bitcount.o", "a1.out", "twocus", "three.a", "dwz-partial2-1"]) \
+        if rng.random() < 0.7 else rng.choice(pick_files(rng, 1))
+    v = b.v()
+    S.append(P.step(0, "OPEN", v, P.hexenc("/sim/0/" + f), rng.choice(["cooked", "cooked", "raw"])))
+    i0 = b.i()
+    S.append(P.step(0, "MKIN", i0, "V:%d" % v))
+    inputs = [i0]
+    if rng.random() < 0.3:
+        i1 = b.i()
+        S.append(P.step(0, "MKIN", i1, "V:%d" % v))
+        inputs.append(i1)
+    texts = [rng.choice(WALKERS)]
+    if rng.random() < 0.4:
+        texts.append(rng.choice(WALKERS))
+    qs = []
+    for t in texts:
+        q = b.q()
+        S.append(P.step(0, "PARSE", q, b.prog(t, 0)))
+        qs.append(q)
+    n = rng.choice([2, 2, 3])
+    rs = []
+    for k in range(n):
+        r = b.res()
+        S.append(P.step(0, "EXEC", r, qs[k % len(qs)], rng.choice(inputs)))
+        rs.append([r, rng.choice([PULL_CAP, PULL_CAP, 6, 3])])
+        for _ in range(rng.choice([0, 1, 2, 3])):
+            S.append(P.step(0, "PULL", r))
+            rs[-1][1] -= 1
+    live = [x for x in rs]
+    while live:
+        x = rng.choice(live)
+        for _ in range(rng.choice([1, 1, 2, 3])):
+            if x[1] <= 0:
+                break
+            S.append(P.step(0, "PULL", x[0]))
+            x[1] -= 1
+        if x[1] <= 0:
+            S.append(P.step(0, "CANCEL", x[0]))
+            live.remove(x)
+    return b.merge()
